@@ -109,6 +109,13 @@ class CallGraph:
                         for item in node.items:
                             if isinstance(item.optional_vars, ast.Name) and item.optional_vars.id == expr.id:
                                 found += self.type_of(cur, item.context_expr, _depth + 1)
+                    elif isinstance(node, (ast.For, ast.AsyncFor)) and any(isinstance(t, ast.Name) and t.id == expr.id for t in ast.walk(node.target)):
+                        # also bound by a loop: typed only when the element type of the iterable is known (a later `x = cast(T, x)` does not
+                        # type the earlier uses)
+                        el = self.elem_types(cur, node.iter, _depth + 1) if isinstance(node.target, ast.Name) else []
+                        if not el:
+                            return []
+                        found += el
                 if found:
                     return list(dict.fromkeys(found))
                 cur = cur.outer
@@ -153,6 +160,156 @@ class CallGraph:
         if isinstance(expr, ast.IfExp):
             return list(dict.fromkeys(self.type_of(fn, expr.body, _depth + 1) + self.type_of(fn, expr.orelse, _depth + 1)))
         return []
+
+    _ELEMENT_CONTAINERS = {"list", "List", "Sequence", "Iterable", "Iterator", "set", "Set", "frozenset", "Collection", "MutableSequence", "Generator", "tuple", "Tuple"}
+
+    def _elem_classes_of_annotation(self, mod, ann: ast.AST | None) -> list[ClassInfo]:
+        """Element classes of `list[T]` / `Sequence[T]` / `tuple[T, ...]` style annotations; [] when not of that form or T is not one in-repo class set."""
+        if isinstance(ann, ast.Constant) and isinstance(ann.value, str):
+            try:
+                ann = ast.parse(ann.value, mode="eval").body
+            except SyntaxError:
+                return []
+        if isinstance(ann, ast.Subscript) and (dotted(ann.value) or "").split(".")[-1] in self._ELEMENT_CONTAINERS:
+            sl = ann.slice
+            if isinstance(sl, ast.Tuple):
+                elts = [e for e in sl.elts if not (isinstance(e, ast.Constant) and e.value is Ellipsis)]
+                if len(elts) != 1:
+                    return []
+                sl = elts[0]
+            # every alternative of the element type must be known: `list[Expr | str]` says nothing about `str`-typed elements having griffe properties
+            parts: list[ast.AST] = []
+            stack = [sl]
+            while stack:
+                x = stack.pop()
+                if isinstance(x, ast.BinOp) and isinstance(x.op, ast.BitOr):
+                    stack += [x.left, x.right]
+                else:
+                    parts.append(x)
+            out: list[ClassInfo] = []
+            for part in parts:
+                if isinstance(part, ast.Name) and part.id in ("str", "int", "bool", "float", "bytes", "None"):
+                    continue
+                if isinstance(part, ast.Constant) and part.value is None:
+                    continue
+                cs = self.classes_of_annotation(mod, part)
+                if not cs:
+                    return []
+                out += cs
+            return out
+        return []
+
+    def elem_types(self, fn: FunctionInfo, it: ast.AST, _depth: int = 0) -> list[ClassInfo]:
+        """In-repo class set of the elements of an iterable expression, or [] when unknown."""
+        if _depth > 4:
+            return []
+        if isinstance(it, ast.Call) and isinstance(it.func, ast.Name) and it.func.id in ("reversed", "sorted", "list", "tuple", "iter") and it.args:
+            return self.elem_types(fn, it.args[0], _depth + 1)
+        if isinstance(it, ast.ListComp) and len(it.generators) == 1 and isinstance(it.elt, ast.Name) and isinstance(it.generators[0].target, ast.Name) \
+                and it.elt.id == it.generators[0].target.id:
+            # `[m for m in xs if isinstance(m, T)]`
+            for cond in it.generators[0].ifs:
+                if isinstance(cond, ast.Call) and dotted(cond.func) == "isinstance" and len(cond.args) == 2 and unparse(cond.args[0]) == it.elt.id:
+                    cs = self.classes_of_annotation(fn.module, cond.args[1])
+                    if cs:
+                        return cs
+            return self.elem_types(fn, it.generators[0].iter, _depth + 1)
+        if isinstance(it, ast.Name):
+            cur: FunctionInfo | None = fn
+            while cur is not None:
+                a = cur.node.args
+                for arg in (*a.posonlyargs, *a.args, *a.kwonlyargs):
+                    if arg.arg == it.id:
+                        return self._elem_classes_of_annotation(cur.module, arg.annotation)
+                vals = [n for n in walk_no_nested(cur.node) if isinstance(n, ast.Assign) and any(isinstance(t, ast.Name) and t.id == it.id for t in n.targets)]
+                anns = [n for n in walk_no_nested(cur.node) if isinstance(n, ast.AnnAssign) and isinstance(n.target, ast.Name) and n.target.id == it.id]
+                if vals or anns:
+                    out: list[ClassInfo] = []
+                    for n in anns:
+                        el = self._elem_classes_of_annotation(cur.module, n.annotation)
+                        if not el:
+                            return []
+                        out += el
+                    for n in vals:
+                        if isinstance(n.value, (ast.Tuple, ast.List, ast.Set)) and not n.value.elts:
+                            continue  # an empty literal contributes no element
+                        el = self.elem_types(cur, n.value, _depth + 1)
+                        if not el:
+                            return []
+                        out += el
+                    return list(dict.fromkeys(out))
+                cur = cur.outer
+            return []
+        if isinstance(it, ast.Call):
+            f = it.func
+            name = dotted(f)
+            if name:
+                full = self.prog.resolve(fn.module, name)
+                if full in self.prog.functions:
+                    g = self.prog.functions[full]
+                    return self._elem_classes_of_annotation(g.module, g.node.returns)
+            if isinstance(f, ast.Attribute):
+                out = []
+                for c in self.type_of(fn, f.value, _depth + 1):
+                    for m in self.prog.lookup_method(c, f.attr):
+                        el = self._elem_classes_of_annotation(m.module, m.node.returns)
+                        if not el:
+                            return []
+                        out += el
+                return list(dict.fromkeys(out))
+            return []
+        if isinstance(it, ast.Attribute):
+            out = []
+            for c in self.type_of(fn, it.value, _depth + 1):
+                for k in self.prog.mro(c):
+                    ann = k.class_annots.get(it.attr)
+                    props = [m for defs in k.methods.values() for m in defs if m.name == it.attr and m.is_property]
+                    inits = [n for defs in k.methods.values() for m in defs if m.name in ("__init__", "__post_init__") for n in walk_no_nested(m.node)
+                             if isinstance(n, ast.AnnAssign) and isinstance(n.target, ast.Attribute) and dotted(n.target) == f"self.{it.attr}"]
+                    cands = ([ann] if ann is not None else []) + [m.node.returns for m in props] + [n.annotation for n in inits]
+                    if cands:
+                        for a_ in cands:
+                            el = self._elem_classes_of_annotation(k.module, a_)
+                            if not el:
+                                return []
+                            out += el
+                        break
+            return list(dict.fromkeys(out))
+        return []
+
+    def externally_typed(self, fn: FunctionInfo, expr: ast.AST) -> bool:
+        """The expression is a parameter whose annotation names only classes from outside the repository (`ast.AST | None`, `Path`): an attribute
+        read on it cannot be one of the repository's properties."""
+        if not isinstance(expr, ast.Name):
+            return False
+        cur: FunctionInfo | None = fn
+        while cur is not None:
+            a = cur.node.args
+            for arg in (*a.posonlyargs, *a.args, *a.kwonlyargs):
+                if arg.arg == expr.id:
+                    return self._external_annotation(cur.module, arg.annotation)
+            cur = cur.outer
+        return False
+
+    def _external_annotation(self, mod, ann: ast.AST | None) -> bool:
+        if ann is None:
+            return False
+        if isinstance(ann, ast.Constant) and isinstance(ann.value, str):
+            try:
+                ann = ast.parse(ann.value, mode="eval").body
+            except SyntaxError:
+                return False
+        if isinstance(ann, ast.Constant) and ann.value is None:
+            return True
+        if isinstance(ann, ast.BinOp) and isinstance(ann.op, ast.BitOr):
+            return self._external_annotation(mod, ann.left) and self._external_annotation(mod, ann.right)
+        name = dotted(ann)
+        if not name:
+            return False
+        root = name.split(".")[0]
+        target = mod.imports.get(root)
+        # only names imported from outside the package count: builtins and generics (`Any`, `object`, type variables) say nothing
+        return target is not None and not target.startswith(("_griffe", "griffe")) and target.split(".")[0] not in ("typing", "typing_extensions", "collections")
 
     def attr_types(self, cls: ClassInfo, attr: str) -> list[ClassInfo]:
         """Declared in-repo class set of `instance.attr` (self.attr: T in any method, class annotation, property return)."""
@@ -418,7 +575,7 @@ class CallGraph:
                         for m in self._methods_with_overrides(c, node.attr):
                             if m.is_property:
                                 edges.append(Edge(fn, m, node, "prop"))
-                else:
+                elif not self.externally_typed(fn, node.value):
                     for m in self._prop_names[node.attr]:
                         edges.append(Edge(fn, m, node, "prop"))
             elif isinstance(node, ast.Subscript):
